@@ -136,7 +136,7 @@ impl Prop for C11Prop {
         }
     }
     fn rule(&self) -> &'static str {
-        "directed part (enumeration) on three base streams (one frame; frame with escapes, zero tail and padding; noise + two frames): every inter-byte position x {WouldBlock, Interrupted, Other, transient EOF (Ok(0) and Err(UnexpectedEof))} as a single fault through io::Read with next and read, WouldBlock / Other through the embedded-hal source, and all pairs of positions x {WouldBlock, Other, EOF}^2 through io::Read; seeded part: arbitrary streams (valid, noisy, corrupted) x 1-8 faults at arbitrary positions (also 0 and |s|, several in a row) x read / next / read_nb / next_nb x target DecodedBytes / File x io::Read and embedded-hal sources x buffers. Expected history = fault-free sub-runs of the same front-end per segment + the byte ledger for the counts. Non-trivial = at least one fault fired; distinct = scenario fingerprint"
+        "directed part (enumeration) on three base streams (one frame; frame with escapes, zero tail and padding; noise + two frames): every inter-byte position x {WouldBlock, Interrupted, Other, transient EOF (Ok(0) and Err(UnexpectedEof))} as a single fault through io::Read with next and read, WouldBlock / Other through the embedded-hal source, and all pairs of positions x {WouldBlock, Other, EOF}^2 through io::Read (thorough: also all triples on the first base stream); seeded part: arbitrary streams (valid, noisy, corrupted) x 1-8 faults at arbitrary positions (also 0 and |s|, several in a row) x read / next / read_nb / next_nb x target DecodedBytes / File x io::Read and embedded-hal sources x buffers. Expected history = fault-free sub-runs of the same front-end per segment + the byte ledger for the counts. Non-trivial = at least one fault fired; distinct = scenario fingerprint"
     }
     fn assumptions(&self) -> Vec<&'static str> {
         vec![
@@ -184,6 +184,25 @@ impl Prop for C11Prop {
                     for a in k3 {
                         for b in k3 {
                             v.push(scn_with(segs.clone(), Fe::RdIo, vec![(p, a), (q, b)], CallKind::Next, "enum-pair"));
+                        }
+                    }
+                }
+            }
+        }
+        if tier == Tier::Thorough {
+            // all triples of positions x kinds on the first base stream
+            let segs = base_streams().remove(0);
+            let len = build_stream(&segs).stream.len();
+            let k3 = [SrcFault::WouldBlock, SrcFault::Other(2), SrcFault::Eof(1)];
+            for p in 0..=len {
+                for q in p..=len {
+                    for r in q..=len {
+                        for a in k3 {
+                            for b in k3 {
+                                for c in k3 {
+                                    v.push(scn_with(segs.clone(), Fe::RdIo, vec![(p, a), (q, b), (r, c)], CallKind::Next, "enum-triple"));
+                                }
+                            }
                         }
                     }
                 }
